@@ -532,6 +532,53 @@ def check_builtin_over_used_unit(case):
     return None
 
 
+def check_refused_edits_and_handouts(kind):
+    import hdl21 as h
+    w = {"refused_or_handout": kind}
+    if kind == "refused-edits":
+        # every refused edit of an elaborated module leaves its export as it was (the C18 check of the same name, read
+        # here as "exporting again changes nothing")
+        from props import c18
+        r = c18.check_misc(None)
+        if r is not None and r[0].startswith("rejects.elaborated"):
+            return ("frozen." + r[0], r[1], w)
+        return None
+    # a generator that hands out a PRE-EXISTING, hand-written module (which it names after its parameters): the design's
+    # package is the same whether that module was elaborated / exported on its own before the generator call or not
+    def build(history):
+        @h.paramclass
+        class HP:
+            w = h.Param(dtype=int, desc="w", default=1)
+        cell = h.Module(name="Cell")
+        cell.a = h.Port()
+        cell.r = h.R(r=1)(p=cell.a, n=cell.a)
+        if history == "elaborate":
+            h.elaborate(cell)
+        elif history == "to_proto":
+            h.to_proto(cell)
+        elif history == "below-parent":
+            p = h.Module(name="HoParent")
+            p.s = h.Signal()
+            p.c = cell(a=p.s)
+            h.to_proto(p)
+
+        @h.generator
+        def HandsOut(p: HP) -> h.Module:
+            return cell
+        top = h.Module(name="HoTop")
+        top.s = h.Signal()
+        top.i = HandsOut(w=3)(a=top.s)
+        return top
+    try:
+        want = h.to_proto(build("none")).SerializeToString(deterministic=True)
+        got = h.to_proto(build(kind.split("/")[1])).SerializeToString(deterministic=True)
+    except Exception as e:
+        return ("handout.raises", f"{kind}: {type(e).__name__}: {str(e)[-140:]}", w)
+    if got != want:
+        return ("handout.differs", f"{kind}: a generator handing out a module that was used before names / exports it differently", w)
+    return None
+
+
 def check_misc(case, refs):
     try:
         return _check_misc(case, refs)
@@ -686,6 +733,11 @@ def run(ctx):
                          "generator; bundle-valued ports), with an elaborate / to_proto / netlist of the first part, of the "
                          "generated module, of a list, or a failing list call in between: package == the one written in one go",
                     bound="8 histories", key_of=repr)
+    ctx.run_bounded("refused-edits-and-handed-out-modules", ["refused-edits", "handout/elaborate", "handout/to_proto", "handout/below-parent"],
+                    check_refused_edits_and_handouts,
+                    rule="nine kinds of refused edit of an elaborated module leave names, views and the exported package as they were; "
+                         "a generator handing out a hand-written module that was elaborated / exported / used below a parent before: "
+                         "package == the one without history", bound="1 + 3 programs", key_of=repr)
     ctx.run_bounded("built-in-generators-over-used-units", BUILTIN_CASES, check_builtin_over_used_unit,
                     rule="Wrapper / Series (nser 1-3) over a unit with a bundle-valued port of one or two leaves x the unit "
                          "elaborated, exported, used below a parent, or below a parent whose elaboration failed late: package == "
@@ -705,6 +757,10 @@ def run(ctx):
 def replay(payload):
     import hdl21 as h
     inp = payload.get("input") or {}
+    if "refused_or_handout" in inp:
+        r = check_refused_edits_and_handouts(inp["refused_or_handout"])
+        print("replay:", r)
+        return 1 if r else 0
     if "builtin_case" in inp:
         r = check_builtin_over_used_unit(eval(inp["builtin_case"]))
         print("replay:", r)
